@@ -22,7 +22,7 @@ type helperShape struct {
 	NoTypeAssert bool
 	OnlyConsts   []string // when set: no string constant outside this list (numbers/bools/nil ignored)
 	MustCommaOk  bool     // the answer rests on a comma-ok map lookup (presence, not value)
-	Why          string // what dependent rules assume
+	Why          string   // what dependent rules assume
 }
 
 func ruleHelperShape(c *Ctx, r *Report, clause string, hs helperShape) {
